@@ -213,6 +213,7 @@ type c07Case struct {
 	want        string // accept | reject | abstain
 	label       string
 	roots2      bool // layout has a second root
+	noRoots     bool // layout has no root CAs at all
 }
 
 func runC07(c *core.Ctx) {
@@ -221,6 +222,13 @@ func runC07(c *core.Ctx) {
 		c.Inconclusive("harness: PKI: " + err.Error())
 		return
 	}
+	// The verifying host trusts the "foreign" CA (system trust store simulated through
+	// SSL_CERT_FILE, set before crypto/x509 loads the system roots): only the layout's
+	// root CAs may make a certificate trusted, the host's never.
+	hostStore := filepath.Join(c.WorkDir, "host-trust-store.pem")
+	os.WriteFile(hostStore, []byte(pki.foreignRoot.PEM), 0644)
+	os.Setenv("SSL_CERT_FILE", hostStore)
+	os.Setenv("SSL_CERT_DIR", filepath.Join(c.WorkDir, "no-such-dir"))
 	fast := gen.Fast(Pool(c))
 	var cases []c07Case
 	wild := gen.WildcardConstraint
@@ -330,6 +338,10 @@ func runC07(c *core.Ctx) {
 			cases = append(cases, c07Case{shape: sh, spec: full, constraints: m.cs, want: w, label: "multi/" + m.name})
 		}
 	}
+	// (4b) a layout without root CAs trusts no certificate, whatever the host trusts
+	for _, sh := range []chainShape{{"foreign-root", false}, {"foreign-root-with-its-intermediate-from-caller", false}, {"leaf-under-root", false}} {
+		cases = append(cases, c07Case{shape: sh, spec: full, constraints: []intoto.CertificateConstraint{wild()}, want: "reject", label: "layout-without-rootcas(host trusts the foreign CA)", noRoots: true})
+	}
 	// (5) root constraints: only one-directional facts are required
 	for _, rc := range []struct {
 		name  string
@@ -370,6 +382,9 @@ func runC07(c *core.Ctx) {
 		layout.RootCas = map[string]intoto.Key{pki.root.Key.KeyID: pki.root.Key}
 		if k.roots2 {
 			layout.RootCas[pki.root2.Key.KeyID] = pki.root2.Key
+		}
+		if k.noRoots {
+			layout.RootCas = nil
 		}
 		if len(layoutInter) > 0 {
 			layout.IntermediateCas = map[string]intoto.Key{}
@@ -531,7 +546,7 @@ func init() {
 	core.Register(&core.Property{
 		ID:    "C07",
 		Level: "exploration",
-		Rule: "12 chain shapes (leaf under root / intermediate in layout / intermediate from caller / two intermediates split between layout and caller; intermediate missing; leaf expired / not yet valid; intermediate expired; foreign root without and with its intermediate passed by the caller; issuer without CA flag; self-signed leaf) x (wildcard constraint, no constraints); each of the 5 attributes varied alone over 22 (certificate values, constraint list) forms (wildcard, empty list / nil / [\"\"], exact, permuted, subset, superset, disjoint, listed-but-absent, case differs; duplicates and '*' among others: abstain) on valid and invalid chains; pairs of attributes (quick: a diagonal, thorough: all pairs x all judged forms); 1-3 constraints with the matching one at each position, none matching, and every attribute satisfied only by a different constraint; root constraints (one-directional facts only); one certificate signing links for two steps of which it satisfies only one (both layout orders). Each case is observed through Step.CheckCertConstraints, CertificateConstraint.Check and InTotoVerify on a link signed by the certificate's key. " +
+		Rule: "12 chain shapes (leaf under root / intermediate in layout / intermediate from caller / two intermediates split between layout and caller; intermediate missing; leaf expired / not yet valid; intermediate expired; foreign root without and with its intermediate passed by the caller; issuer without CA flag; self-signed leaf) x (wildcard constraint, no constraints); each of the 5 attributes varied alone over 22 (certificate values, constraint list) forms (wildcard, empty list / nil / [\"\"], exact, permuted, subset, superset, disjoint, listed-but-absent, case differs; duplicates and '*' among others: abstain) on valid and invalid chains; pairs of attributes (quick: a diagonal, thorough: all pairs x all judged forms); 1-3 constraints with the matching one at each position, none matching, and every attribute satisfied only by a different constraint; root constraints (one-directional facts only); a layout without root CAs while the verifying host's own trust store (simulated with SSL_CERT_FILE) trusts the certificate's CA; one certificate signing links for two steps of which it satisfies only one (both layout orders). Each case is observed through Step.CheckCertConstraints, CertificateConstraint.Check and InTotoVerify on a link signed by the certificate's key. " +
 			"non-trivial = the certificate parses and the step has >=1 constraint, or the no-constraint class; distinct = (label, chain shape)",
 		Assumptions: []string{"duplicated values on either side, lists containing '*' among other entries and non-wildcard root lists that contain the chain's root are not judged", "validity windows are >= 1 day away from now, except 'valid' (+-1 h / +24 h)", "certificate-signed links use the legacy wrapper (DSSE cannot carry certificates: known finding F6)"},
 		Workers:     func(string) int { return 16 },
